@@ -6,112 +6,196 @@ import LinfaSpec.Model.Hier
 namespace LinfaSpec.Drv.C06
 open LinfaSpec.Proto LinfaSpec.Kernel LinfaSpec.Hier
 
+instance : LinfaSpec.Transc Float32 := ⟨Float32.sqrt, Float32.exp, Float32.log⟩
+instance : KPow Float32 := ⟨Float32.pow⟩
+
+/-- how the scalars of one float type travel through the line protocol, and the constants of the code that
+depend on the type (`F::cast(1e-6)`, the predicates of the parameter guard) -/
+structure Codec (α : Type) where
+  parse : String → Option α
+  /-- bit pattern (canonical `nan`) -/
+  showEx : α → String
+  toF64 : α → Float
+  isZero : α → Bool
+  /-- `F::cast(1e-6)` -/
+  thr : α
+  fp : FloatPreds α
+
+def c64 : Codec Float where
+  parse := parseF64
+  showEx := showF64c
+  toF64 := id
+  isZero := fun x => x == 0
+  thr := Float.ofBits 0x3eb0c6f7a0b5ed8d
+  fp := ⟨fun x => x.toBits >>> 63 == 1, Float.isNaN, Float.isInf⟩
+
+def c32 : Codec Float32 where
+  parse := parseF32
+  showEx := fun x => if x.isNaN then "nan" else showF32 x
+  toF64 := Float32.toFloat
+  isZero := fun x => x == 0
+  thr := (Float.ofBits 0x3eb0c6f7a0b5ed8d).toFloat32
+  fp := ⟨fun x => x.toBits >>> 31 == 1, Float32.isNaN, Float32.isInf⟩
+
+section
+variable {α : Type} [Add α] [Sub α] [Mul α] [Div α] [Neg α] [OfNat α 0] [LT α] [DecidableLT α]
+  [LE α] [DecidableLE α] [LinfaSpec.Transc α] [KPow α]
+
 /-- `m=l` | `m=g:<eps>` | `m=p:<c>:<d>` (floats as hex bits) -/
-def parseMethod (s : String) : Option (Method Float) :=
+def parseMethod (c : Codec α) (s : String) : Option (Method α) :=
   match s.splitOn ":" with
   | ["l"] => some .linear
-  | ["g", e] => (parseF64 e).map .gaussian
-  | ["p", c, d] => match parseF64 c, parseF64 d with
-    | some c, some d => some (.poly c d)
+  | ["g", e] => (c.parse e).map .gaussian
+  | ["p", a, d] => match c.parse a, c.parse d with
+    | some a, some d => some (.poly a d)
     | _, _ => none
   | _ => none
 
-def isLinear : Method Float → Bool
-  | .linear => true
-  | _ => false
+/-- values that went through libm are written `~…` (widened to f64, compared with tolerance), the others exactly -/
+def fl (c : Codec α) (exact : Bool) (x : α) : String :=
+  if exact then c.showEx x else "~" ++ showF64c (c.toF64 x)
 
-/-- values that went through libm are written `~…` (compared in ulps), the others exactly -/
-def fl (exact : Bool) (x : Float) : String := (if exact then "" else "~") ++ showF64c x
+/-- a column entry: the two zeros are the same number -/
+def flz (c : Codec α) (exact : Bool) (x : α) : String := fl c exact (if c.isZero x then 0 else x)
 
-def showCols (ex : Bool) (cols : List (Option (List Float))) : String :=
-  ";".intercalate (cols.map fun c => match c with
-    | some c => if c.isEmpty then "-" else showList (fl ex) c
+/-- `oobFree`: a column request beyond the matrix on a sparse kernel is not compared -/
+def showCols (c : Codec α) (ex : Bool) (n : Nat) (oobFree : Bool) (ci : List Nat) (cols : List (Option (List α))) : String :=
+  ";".intercalate ((ci.zip cols).map fun (i, col) =>
+    if oobFree && decide (n ≤ i) then "oob" else
+    match col with
+    | some col => if col.isEmpty then "-" else showList (flz c ex) col
     | none => "panic")
 
-def handleDense (toks : List String) : Option String := do
-  let m ← (arg toks "m").bind parseMethod
-  let X ← argF64s2 toks "X"
-  let ci ← argNats toks "ci"
-  let ex := isLinear m
-  let K := dense m X
-  some (s!"ok size={dSize K} K={showList2 (fl ex) K} sum={showList (fl ex) (dSum K)} " ++
-    s!"diag={showList (fl ex) (dDiag K)} ut={showList (fl ex) (dUpper K)} " ++
-    s!"col={showCols ex (ci.map (dColumn K))}")
+def forms : List String := ["view", "ref_array", "ref_view", "new", "dataset", "ref_dataset", "ref_dataset_view"]
+def lays : List String := ["c", "f", "strided", "reversed"]
 
-def handleDDot (toks : List String) : Option String := do
-  let m ← (arg toks "m").bind parseMethod
-  let X ← argF64s2 toks "X"
-  let q ← argNat toks "q"
-  let R ← argF64s2 toks "R"
-  if R.length ≠ X.length ∨ R.any (·.length ≠ q) then none
-  else some ("ok " ++ showList2 (fl false) (dDot (dense m X) q R))
+/-- the calling form and the memory layout do not enter `Kernel::new` (see `Model/Kernel.lean`); an unknown
+name is an ill-formed request -/
+def callOk (toks : List String) : Option Unit := do
+  let f ← arg toks "form"
+  let l ← arg toks "lay"
+  if forms.contains f && lays.contains l then some () else none
 
-def indptrOf (S : Csr Float) : List Nat :=
+def argS (c : Codec α) (toks : List String) (key : String) : Option (List α) := (arg toks key).bind (parseList c.parse)
+def argS2 (c : Codec α) (toks : List String) (key : String) : Option (List (List α)) :=
+  (arg toks key).bind (parseList2 c.parse)
+
+def indptrOf (S : Csr α) : List Nat :=
   (S.foldl (fun (acc : List Nat × Nat) row => (acc.1 ++ [acc.2 + row.length], acc.2 + row.length)) ([0], 0)).1
 
-def handleSparse (toks : List String) : Option String := do
-  let m ← (arg toks "m").bind parseMethod
-  let X ← argF64s2 toks "X"
+/-- the accessor part of a response, common to dense and sparse kernels -/
+def showViews (c : Codec α) (ex : Bool) (m : Method α) (I : Inner α) (mid : String) (ci : List Nat) (oobFree : Bool) : String :=
+  let n := kSize I
+  s!"ok size={n} ns={n} nf={n} lin={m.isLinear} {mid}sum={showList (fl c ex) (kSum I)} " ++
+  s!"diag={showList (fl c ex) (kDiag I)} ut={showList (fl c ex) (kUpper I)} " ++
+  s!"col={showCols c ex n oobFree ci (ci.map (kColumn I))}"
+
+def handleDense (c : Codec α) (toks : List String) : Option String := do
+  let m ← (arg toks "m").bind (parseMethod c)
+  let X ← argS2 c toks "X"
+  let ci ← argNats toks "ci"
+  callOk toks
+  let ex := m.isLinear
+  match kernelNew .dense m X [] with
+  | some (.dense K) => some (showViews c ex m (.dense K) s!"K={showList2 (fl c ex) K} " ci false)
+  | _ => none
+
+def rhsOk (toks : List String) (n q : Nat) (R : List (List α)) : Option Unit := do
+  let l ← arg toks "rlay"
+  if lays.contains l && R.length == n && R.all (·.length == q) then some () else none
+
+def handleDDot (c : Codec α) (toks : List String) : Option String := do
+  let m ← (arg toks "m").bind (parseMethod c)
+  let X ← argS2 c toks "X"
+  let q ← argNat toks "q"
+  let R ← argS2 c toks "R"
+  callOk toks
+  rhsOk toks X.length q R
+  let I ← kernelNew .dense m X []
+  some ("ok " ++ showList2 (fl c false) (kDot I q R))
+
+def idxNames : List String := ["linear", "kdtree", "balltree", "default", "KdTree", "BallTree", "LinearSearch"]
+
+/-- the neighbour index enters only through the lists it returned (`nb`) -/
+def idxOk (toks : List String) : Option Unit := do
+  let i ← arg toks "idx"
+  if idxNames.contains i then some () else none
+
+def handleSparse (c : Codec α) (toks : List String) : Option String := do
+  let m ← (arg toks "m").bind (parseMethod c)
+  let X ← argS2 c toks "X"
   let k ← argNat toks "k"
   let nb ← argNats2 toks "nb"
   let ci ← argNats toks "ci"
-  let ex := isLinear m
-  match sparseFromFn m X k nb with
+  callOk toks
+  idxOk toks
+  let ex := m.isLinear
+  match kernelNew (.sparse k) m X nb with
   | none => some "panic"
-  | some S =>
-    let n := X.length
-    some (s!"ok size={n} indptr={showList toString (indptrOf S)} " ++
-      s!"indices={showList toString (S.flatten.map (·.1))} data={showList (fl ex) (S.flatten.map (·.2))} " ++
-      s!"sum={showList (fl ex) (sSum n S)} diag={showList (fl ex) (sDiag n S)} ut={showList (fl ex) (sUpper n S)} " ++
-      s!"col={showCols ex (ci.map fun i => some (sColumn n S i))}")
+  | some (.sparse n S) =>
+    some (showViews c ex m (.sparse n S)
+      (s!"indptr={showList toString (indptrOf S)} indices={showList toString (S.flatten.map (·.1))} " ++
+       s!"data={showList (fl c ex) (S.flatten.map (·.2))} ") ci true)
+  | some (.dense _) => none
 
-def handleSDot (toks : List String) : Option String := do
-  let m ← (arg toks "m").bind parseMethod
-  let X ← argF64s2 toks "X"
+def handleSDot (c : Codec α) (toks : List String) : Option String := do
+  let m ← (arg toks "m").bind (parseMethod c)
+  let X ← argS2 c toks "X"
   let k ← argNat toks "k"
   let nb ← argNats2 toks "nb"
   let q ← argNat toks "q"
-  let R ← argF64s2 toks "R"
-  if R.length ≠ X.length ∨ R.any (·.length ≠ q) then none
-  else match sparseFromFn m X k nb with
-    | none => some "panic"
-    | some S => some ("ok " ++ showList2 (fl false) (sDot S q R))
+  let R ← argS2 c toks "R"
+  callOk toks
+  idxOk toks
+  rhsOk toks X.length q R
+  match kernelNew (.sparse k) m X nb with
+  | none => some "panic"
+  | some I => some ("ok " ++ showList2 (fl c false) (kDot I q R))
 
-/-- `F::cast(1e-6)` for `f64` -/
-def thr : Float := Float.ofBits 0x3eb0c6f7a0b5ed8d
-
-def parseCrit (s : String) : Option (Crit Float) :=
+def parseCrit (c : Codec α) (s : String) : Option (Crit α) :=
   match s.splitOn ":" with
-  | ["n", c] => c.toNat?.map .num
-  | ["d", d] => (parseF64 d).map .dist
+  | ["n", n] => n.toNat?.map .num
+  | ["d", d] => (c.parse d).map .dist
   | _ => none
 
-def mkSteps : List (List Nat) → List Float → Option (List (Step Float))
+def mkSteps : List (List Nat) → List α → Option (List (Step α))
   | [], [] => some []
   | [a, b, sz] :: r, d :: ds => (mkSteps r ds).map fun t => { c1 := a, c2 := b, dis := d, size := sz } :: t
   | _, _ => none
 
-/-- `hier n= steps=c1,c2,size;… dis=<hex,…> crit=n:<c>|d:<hex> ut=<upper triangle of the kernel>` -/
-def handleHier (toks : List String) : Option String := do
+def hforms : List String := ["kernel", "dataset", "checked", "checked_ref_dataset"]
+
+/-- `hier n= steps=c1,c2,size;… dis=<hex,…> crit=n:<c>|d:<hex> ut=<upper triangle of the kernel> form=` -/
+def handleHier (c : Codec α) (toks : List String) : Option String := do
   let n ← argNat toks "n"
   let st ← argNats2 toks "steps"
-  let dis ← argF64s toks "dis"
-  let crit ← (arg toks "crit").bind parseCrit
-  let ut ← argF64s toks "ut"
+  let dis ← argS c toks "dis"
+  let crit ← (arg toks "crit").bind (parseCrit c)
+  let ut ← argS c toks "ut"
   let steps ← mkSteps st dis
-  match replay crit n steps with
-  | none => some "panic"
-  | some cl =>
+  let f ← arg toks "form"
+  if !hforms.contains f then none
+  else match transform c.fp crit n steps with
+  | .invalid => some "err InvalidStoppingCondition"
+  | .panic => some "panic"
+  | .ok cl =>
     some (s!"ok nc={cl.length} part={showList toString (canon (assign n cl))} " ++
-      s!"dist={showList (fl false) (ut.map (toDist thr))}")
+      s!"dist={showList (fl c false) (ut.map (toDist c.thr))}")
+
+end
 
 def handle (toks : List String) : String :=
   let r := match toks with
-    | "dense" :: rest => handleDense rest
-    | "ddot" :: rest => handleDDot rest
-    | "sparse" :: rest => handleSparse rest
-    | "sdot" :: rest => handleSDot rest
-    | "hier" :: rest => handleHier rest
+    | "dense" :: rest => handleDense c64 rest
+    | "ddot" :: rest => handleDDot c64 rest
+    | "sparse" :: rest => handleSparse c64 rest
+    | "sdot" :: rest => handleSDot c64 rest
+    | "hier" :: rest => handleHier c64 rest
+    | "dense32" :: rest => handleDense c32 rest
+    | "ddot32" :: rest => handleDDot c32 rest
+    | "sparse32" :: rest => handleSparse c32 rest
+    | "sdot32" :: rest => handleSDot c32 rest
+    | "hier32" :: rest => handleHier c32 rest
     | _ => none
   r.getD "bad-op"
 
